@@ -25,7 +25,7 @@ EP_NAME = {"instantiate": "instantiate", "exec": "execute", "query": "query", "s
 N_IN = ["foo", "bar_baz", "a", "get_x", "x_pos", "a_b", "set_a_b", "foo1", "foo1_bar", "v2",
         "item3_list4", "abc_d9_e"]
 # N_out: outside that shape; only the self-consistency clauses of C03/C05 speak about them.
-N_OUT = ["_lead", "dbl__us", "foo_1", "trail_", "a__1", "x1y"]
+N_OUT = ["_lead", "dbl__us", "foo_1", "trail_", "a__1", "x1y", "b11", "b_1"]   # b11 / b_1: method-name order differs from wire-name order
 N_RES = ["dispatch", "execute", "query", "sudo", "instantiate", "migrate", "reply", "querier"]
 
 N_IN_RE = re.compile(r"^[a-z]+[0-9]*(_[a-z]+[0-9]*)*$")
